@@ -16,7 +16,7 @@ func init() {
 			Explanation: "Decides the structural reasons why a Conn is a lossless, order-preserving pipe; equality of the byte streams for all chunkings and cut points is NOT decided (that quantifies over schedules and inputs and needs execution or model checking): " +
 				"(B1) the only test of the TLS record length, in the record reader and in Write, compares exactly the 16-bit length field with a constant >= 2^14+256, and the reader's buffer is at least 5 bytes larger than that constant; " +
 				"(B2) consumption pairing and ownership: readBuf is advanced by exactly the count returned by the copy() that delivered its prefix into the caller's buffer; writeBuf is advanced by exactly the count returned by the Conn.Write of its prefix [:sz] with sz = 5 + record length; census of every store to the two buffers, none of which may alias the caller's slice; " +
-				"(B3) deferred error: the partial record read before a transport error is still stored into readBuf, an error kept in readErr is returned only when readBuf is empty (with the last bytes or on the next call), and readErr is only written while it is nil (sticky); " +
+				"(B3) deferred error: the partial record read before a transport error is still stored into readBuf, an error kept in readErr is returned only when readBuf is empty (with the last bytes or on the next call), and readErr is only written while it is nil (sticky); no way round Read discards bytes that are already in readBuf; " +
 				"(B4) every nil-error return of Write is the direct passthrough or len(b); the record loop is left only when fewer than 5 bytes or less than one whole record remain, or with an error; " +
 				"(B5) passthrough directness (C05.P4).",
 			Assumptions: []string{"copy returns the number of bytes copied; net.Conn.Write returns 0 <= n <= len(p)"},
@@ -83,6 +83,30 @@ func c07Rules(p *core.Prog, r *core.Run) {
 				}
 				r.Check("C07.B3", "Read:partial-record-kept", kept, p.InstrPos(st), "on a transport error the bytes received so far are still put into readBuf for delivery")
 			}
+		}
+	}
+	// no way out of Read between taking a record off the transport and putting
+	// it (or what replaces it) into readBuf - except the abort of a retried hello
+	// the handler refused: whatever the transport delivered reaches the caller
+	for _, rc := range callSites(p, []*ssa.Function{rd}, `ech\.readRecord`) {
+		after := core.Reachable(rc.Block(), nil)
+		for i, ret := range core.Returns(rd) {
+			if !after[ret.Block()] || !core.Before(rc.Instr, ret) {
+				continue
+			}
+			stored := false
+			for _, st := range fieldStores(p, []*ssa.Function{rd}, m.fConn["readBuf"]) {
+				if core.Before(rc.Instr, st) && (st.Block() == ret.Block() && core.Before(st, ret) || st.Block().Dominates(ret.Block())) {
+					stored = true
+				}
+			}
+			refused := false
+			for _, f := range p.Facts(ret.Block()) {
+				if f.Op == "!=" && f.R != nil && f.R.Name == "nil" && f.L.Op == "ext" && f.L.Args[0].Op == "call" && f.L.Args[0].Fn == m.handle {
+					refused = true
+				}
+			}
+			r.Check("C07.B3", fmt.Sprintf("Read:no-drop#%d", i), stored || refused, p.InstrPos(ret), "this return of Read follows a readRecord call: the record (or the part that arrived before an error) was put into readBuf first (%v), or the handler refused a retried hello (%v)", stored, refused)
 		}
 	}
 	nErrRet := 0
